@@ -3,6 +3,7 @@ package c18
 
 import (
 	"bytes"
+	"context"
 	"fmt"
 	"math/rand"
 	"os"
@@ -670,6 +671,9 @@ func childMain(cfg props.Cfg) int {
 	for i := 0; i < nStress; i++ {
 		stress(em, rng, w == 0 && i == 0)
 	}
+	for i := 0; i < nStress; i++ {
+		receiverStress(em, rng)
+	}
 	em.Done()
 	return 0
 }
@@ -971,6 +975,87 @@ func classOfProblem(p string) string {
 }
 
 // stress: long history with many producers; invariants + interval bounds.
+// receiverStress: the library's own consumer (wire.Receiver) behind a relay, read by one reader
+// that polls with short-lived contexts (Next with a timeout, retried with a fresh context) while
+// producers put. Every envelope the relay handed to the receiver must come out of Next exactly
+// once, whatever the contexts do.
+func receiverStress(em *childrun.Emitter, rng *rand.Rand) {
+	relay := wire.NewRelay()
+	recv := wire.NewReceiver()
+	if err := relay.Subscribe(recv, func(*wire.Envelope) bool { return true }); err != nil {
+		em.Inconclusive("receiver stress: subscribe failed: " + err.Error())
+		return
+	}
+	nProd := 2 + rng.Intn(4)
+	per := 200 + rng.Intn(600)
+	total := nProd * per
+	waits := make([]time.Duration, 64)
+	for i := range waits {
+		waits[i] = time.Duration(rng.Intn(40)) * time.Microsecond
+	}
+	var wg sync.WaitGroup
+	for p := 0; p < nProd; p++ {
+		p := p
+		wg.Add(1)
+		go func() {
+			defer wg.Done()
+			for i := 0; i < per; i++ {
+				relay.Put(envelope(int64(1 + p*per + i)))
+				if i%7 == p%7 {
+					runtime.Gosched()
+				}
+			}
+		}()
+	}
+	seen := map[int64]int{}
+	got, expired := 0, 0
+	prodDone := make(chan struct{})
+	go func() { wg.Wait(); close(prodDone) }()
+	finishing := false
+	for got < total {
+		d := waits[(got+expired)%len(waits)]
+		if finishing {
+			d = 5 * time.Second // everything has been put: what is still missing is queued or lost
+		}
+		ctx, cancel := context.WithTimeout(context.Background(), d)
+		e, err := recv.Next(ctx)
+		cancel()
+		if err != nil {
+			expired++
+			if finishing {
+				break
+			}
+			select {
+			case <-prodDone:
+				finishing = true
+			default:
+			}
+			continue
+		}
+		seen[idOf(e)]++
+		got++
+	}
+	<-prodDone
+	_ = relay.Close()
+	em.Count("receiver_stress_runs", 1)
+	em.Count("receiver_stress_envelopes", int64(total))
+	em.Count("receiver_stress_expired_contexts", int64(expired))
+	em.Case(fmt.Sprintf("receiver-stress|%d|%d|%d", nProd, per, expired), expired > 0)
+	lost, dup := 0, 0
+	for id := int64(1); id <= int64(total); id++ {
+		switch n := seen[id]; {
+		case n == 0:
+			lost++
+		case n > 1:
+			dup++
+		}
+	}
+	if lost > 0 || dup > 0 {
+		em.Violation("C18/receiver/lost-or-duplicated", fmt.Sprintf("%d producers put %d envelopes into a relay whose only consumer is a wire.Receiver read with short-lived contexts (%d of them expired): %d envelopes never came out of Next, %d came out twice", nProd, total, expired, lost, dup),
+			map[string]any{"producers": nProd, "envelopes": total, "expired_contexts": expired, "lost": lost, "duplicated": dup})
+	}
+}
+
 func stress(em *childrun.Emitter, rng *rand.Rand, sample bool) {
 	nProd := 4 + rng.Intn(5)
 	nCons, nPreds := 3+rng.Intn(4), 4+rng.Intn(20)
